@@ -26,12 +26,16 @@ class S(HasTraits):
     t = Str()
     l = List(Int)
     k = List(Int)
+    ld = List(Int)       # its default comes from a method (another default kind)
     c = Checked()
     c2 = Checked()
+
+    def _ld_default(self):
+        return []
 
     def __repr__(self):
         return "S%d" % self.uid
 
 
-GROUPS = {"n": "int", "m": "int", "s": "str", "t": "str", "l": "list", "k": "list",
+GROUPS = {"n": "int", "m": "int", "s": "str", "t": "str", "l": "list", "k": "list", "ld": "list",
           "c": "chk", "c2": "chk"}
